@@ -21,31 +21,40 @@ vlib.standard_check({
     "translators": [translate_vhdl_keywords.run],
     "gen_files": ["lean/GateryModel/Gen/VhdlKeywords.lean"],
     # harness args after the seed: ncases mode   (0 random allocator sequences, 1 allocator sweep over all reserved words x 3 cases x 19 kinds,
-    # 2 random designs exported, 3 export sweep: one design per reserved word x 3 cases (+ncases random), 4 directed sub-entity/instance-name designs)
-    "streams": {"quick": [[40, 3], [0, 1], [3000, 0], [400, 2], [300, 4]],
-                "thorough": [[3000, 3], [0, 1], [150000, 0], [40000, 2], [15000, 4]]},
-    "search": [[0, 1], [0, 3], [1000, 4], [2000, 2]],
+    # 2 random designs exported, 3 export sweep: one design per reserved word x 3 cases (+ncases random), 4 directed sub-entity/instance-name designs,
+    # 5 comment formatters of DefaultCodeFormatting on generated comments (16 calls per case), 6 directed designs with logic-driven resets/clocks
+    # over late-assigned signals behind multiplexers (+ comments))
+    "streams": {"quick": [[40, 3], [0, 1], [3000, 0], [400, 2], [300, 4], [400, 5], [400, 6]],
+                "thorough": [[3000, 3], [0, 1], [150000, 0], [40000, 2], [15000, 4], [30000, 5], [20000, 6]]},
+    "search": [[0, 1], [0, 3], [1000, 4], [2000, 2], [1000, 5], [2000, 6]],
     "signature": signature,
     "eval_key": "ops",
-    "nontrivial": lambda t: t.get("alloc_renamed", 0) + t.get("vhdl_assignments", 0) + t.get("vhdl_instances", 0),
+    "nontrivial": lambda t: t.get("alloc_renamed", 0) + t.get("vhdl_assignments", 0) + t.get("vhdl_instances", 0) + t.get("comment_formatter_calls", 0)
+                            + t.get("exported_comment_lines_checked", 0),
     "rule": "allocator: request sequences (19 allocation kinds, scope trees of 1..6 scopes, desired names from 2..6 base names per case in "
             "lower/UPPER/MiXed case, `_2`-style look-alikes, every VHDL-2008 reserved word x 3 letter cases x 19 kinds) through the real NamespaceScope; "
             "exports: generated designs (pins, arithmetic/logic/compare/mux/slice/concat, registers with sync/async/no reset, 1..2 clocks, named signals "
             "and constants, nested entity areas with instance names and component instantiation, plain areas) with all names from the same pools, "
-            "one design per reserved word x 3 cases with the word in every name position; every emitted file is tokenised, parsed and checked. "
-            "ops = allocation requests + identifiers checked in emitted text; non-trivial = requests whose name had to be changed + assignments and "
-            "port-map instances whose widths/names were checked",
+            "one design per reserved word x 3 cases with the word in every name position; directed designs whose derived clocks get logic-driven "
+            "resets/clocks (overrideRstWith/overrideClkWith) computed through multiplexers over signals declared first and assigned later; multi-line "
+            "comments (1..5 lines: empty, indented with blanks/tabs, containing --, quotes, semicolons, VHDL statements, 300..700 characters, CR LF) on "
+            "the top entity, sub-entities, areas and nodes of about half of the designs, every comment line carrying a marker; the four comment "
+            "formatters called directly on such comments; every emitted file is tokenised, parsed and checked. "
+            "ops = allocation requests + identifiers checked in emitted text + formatter calls + marked comment lines; non-trivial = requests whose name "
+            "had to be changed + assignments and port-map instances whose widths/names were checked + formatter calls + exported comment lines checked",
     "trusted_base": ["Lean 4.33 kernel", "axioms: propext, Classical.choice, Quot.sound only (audited per theorem)",
                      "tools/translate_vhdl_keywords.py (initializer list of NamespaceScope::NamespaceScope -> Gen/VhdlKeywords.lean)",
                      "the list reserved2008 in C13/Model.lean (IEEE 1076-2008 15.10, 115 words)",
-                     "harness/c13.cpp + Driver/C13.lean line protocol", "C13/Vhdl.lean: tokenizer/parser/checkers for the emitted VHDL subset (not verified)"],
+                     "harness/c13.cpp + Driver/C13.lean line protocol", "C13/Comments.lean: line-structured model of the four comment formatters (tied by DIFF)", "C13/Vhdl.lean: tokenizer/parser/checkers for the emitted VHDL subset (not verified)"],
     "level_text": "Lean model of NamespaceScope/CodeFormatting name allocation proved sound for every scope tree and request sequence (basic identifier, "
                   "not reserved given the keyword table is complete, distinct ignoring case along the scope chain, retry loop terminates); keyword table tied "
-                  "to the code by a translator and a decide-proof against the VHDL-2008 list; allocator tied by differential execution; the remaining clauses "
+                  "to the code by a translator and a decide-proof against the VHDL-2008 list; allocator tied by differential execution; model of the comment "
+                  "formatters proved to emit only blank or `--` lines for every comment text, tied by differential execution; the remaining clauses "
                   "(declarative-region uniqueness across scopes, declared-before-use, equal widths, write-before-read) are decided on real exports by a Lean "
                   "VHDL front end.",
     "assumptions": ["ASCII names only (VHDL-2008 also admits Latin-1 letters)", "user names equal to identifiers of ieee/std packages or of gatery's helper "
                     "package (unsigned, std_logic, resize, ...) are excluded from generation: hiding of library names is not checked",
                     "memories, external/vendor components, tristate pins, interface packages, testbench files, attributes are not generated",
+                    "comments: '\\n' is the only line terminator considered (VT/FF in a comment are not generated)",
                     "operand widths inside expressions and full VHDL type/overload resolution are not checked"],
 })
